@@ -236,10 +236,14 @@ def _fill_unit(name, qual, forward):
     def setup(interp):
         R, C, f, arr = _arr(interp.ctx)
         fill = z3.Int('fill_val')
+        interp.ctx.ghost['arg_arr'] = arr
         return [arr], {'fill_val': fill}, {'R': R, 'C': C, 'f': f, 'fill': fill}
 
     def post(interp, st, res):
-        return [('shape', z3.And(res.shape[0] == st['R'], res.shape[1] == st['C']))] + \
+        i, j = z3.Ints('xi xj')
+        arr = interp.ctx.ghost['arg_arr']
+        return [('shape', z3.And(res.shape[0] == st['R'], res.shape[1] == st['C'])),
+                ('input-array-not-modified', z3.ForAll([i, j], z3.Implies(z3.And(i >= 0, i < st['R'], j >= 0, j < st['C']), arr.at(i, j) == st['f'](i, j))))] + \
             _fill_post(st['R'], st['C'], st['f'], res, st['fill'], forward)
     u.prove_function('gemdat.utils', qual, setup, post, raises=(), label=f'gemdat.utils.{qual}[axis=-1]',
                      replay={'fn': f'verif.props.c03:replay_fill_{qual}', 'concretise': _conc_arr,
@@ -370,10 +374,14 @@ def _replay_fill(inputs, which):
     fill = inputs.get('fill', -1)
     axis = inputs.get('axis', -1)
     fn = getattr(utils, which)
+    orig = arr.copy()
     try:
         res = fn(arr, fill_val=fill, axis=axis) if axis != 0 else fn(arr, fill_val=-1, axis=0)
     except Exception as e:
         return {'reproduced': True, 'detail': f'{which} raised {type(e).__name__}: {e}'}
+    if (arr != orig).any():
+        return {'reproduced': True, 'detail': f'{which}(arr={orig.tolist()}, axis={axis}) modified its input in place -> {arr.tolist()}'}
+    arr = orig
     a2 = arr.T if axis == 0 else arr
     r2 = res.T if axis == 0 else res
     f = -1 if axis == 0 else fill
@@ -401,9 +409,15 @@ def replay_prev_next(inputs):
     states = np.array(inputs['states'], dtype=int)
     if not (states[:-1] != states[1:]).any():
         return {'reproduced': False, 'detail': 'no change'}
-    tr = make_transitions(states, n_sites=int(max(states.max(), 0)) + 1)
-    prev, nxt = tr.states_prev(), tr.states_next()
+    tr = make_transitions(states.copy(), n_sites=int(max(states.max(), 0)) + 1)
+    order = inputs.get('order', 'prev-next')
+    if order == 'prev-next':
+        prev, nxt = tr.states_prev(), tr.states_next()
+    else:
+        nxt, prev = tr.states_next(), tr.states_prev()
     bad = []
+    if (tr.states != states).any():
+        bad.append('the queries modified Transitions.states')
     T, N = states.shape
     for x in range(N):
         for t in range(T):
@@ -463,9 +477,11 @@ def bounded_histories(tier, seed):
                     cur = int(rng.integers(-1, 4))
                 states[t, x] = cur
         if c % 10 == 0 and (states[:-1] != states[1:]).any():
-            rr = st.guard(replay_prev_next, {'states': states[:40].tolist()})
-            if rr and rr['reproduced']:
-                st.violation('prev_next', rr['detail'], 'verif.props.c03:replay_prev_next', {'states': states[:40].tolist()})
+            for order in ('prev-next', 'next-prev'):
+                pin = {'states': states[:40].tolist(), 'order': order}
+                rr = st.guard(replay_prev_next, pin)
+                if rr and rr['reproduced']:
+                    st.violation('prev_next', rr['detail'], 'verif.props.c03:replay_prev_next', pin)
         inner = states.copy()
         mode = c % 3
         if mode == 1:
